@@ -22,10 +22,48 @@ def cov_c07(st, tier):
 ENGINES = [
     {"name": "E-A netsim", "path": "engine/", "serves_properties": [], "kind_free_text": "real client + real server main loops as coroutines in one process under a virtual clock/network/tun; fork-at-choice-point DFS over per-datagram fates, deviation-bounded"},
     {"name": "E-B adversary", "path": "engine/", "serves_properties": [], "kind_free_text": "depth-bounded explicit-state search over message alphabets against the real server/client loop, exact-state hashing of the whole image"},
-    {"name": "E-C enumerators", "path": "props/", "serves_properties": ["C07"], "kind_free_text": "exhaustive enumeration of finite input families through the real pure functions, compared with independent references"},
+    {"name": "E-C enumerators", "path": "props/", "serves_properties": ["C07", "C08", "C09", "C17", "C18", "C19"], "kind_free_text": "exhaustive enumeration of finite input families through the real pure functions, compared with independent references"},
 ]
 
 NOT_CLAIMED = {}
+
+def cov_c17(st, tier):
+    return {
+        "states": st["valid_cases"] + st["match_cases"] + st["dispatch_cases"], "transitions": st["valid_cases"] + st["match_cases"] + st["dispatch_cases"],
+        "traces_validated_against_impl": st["valid_cases"] + st["match_cases"] + st["dispatch_cases"],
+        "evaluations": st["valid_cases"] + st["match_cases"] + st["dispatch_cases"], "distinct_nontrivial": st["distinct_outcomes"],
+        "rule": "state = one enumerated (string, wildcard flag) or (query name, domain) input; transition = one call of the real check_topdomain / query_datalen, "
+                "or one query datagram handled by the real server loop (dispatch part). non-trivial/distinct = distinct (domain, matched data length) results "
+                "and distinct (accept/reject, reason) validation results, counted with a hash set",
+        "validation_cases": st["valid_cases"], "validation_accepted": st["accepted"], "matching_cases": st["match_cases"], "matching_positive": st["matches"],
+        "dispatch_cases_through_server_loop": st["dispatch_cases"], "dispatch_inside_domain": st["dispatch_tunnel"], "long_name_cases": st["long_cases"],
+        "bounds": {"validation_len": "0..7 over {a,A,b,-,.,*,0} + boundary family", "matching_len": "0..%d x 15 domains + long family 250..255" % (8 if tier == "thorough" else 7),
+                   "dispatch_len": "1..%d x 15 domains" % (6 if tier == "thorough" else 5)},
+    }
+
+
+def cov_c18(st, tier):
+    return {
+        "states": st["configs"], "transitions": st["configs"] + st["lookups"], "traces_validated_against_impl": st["configs"],
+        "evaluations": st["configs"], "distinct_nontrivial": st["distinct_outcomes"],
+        "rule": "state = one (netmask, server host position, base network) configuration; transition = one real init_users() or find_user_by_ip() call. "
+                "non-trivial = the server address falls inside the range handed to sessions (skip logic exercised); distinct = distinct (netmask, skip position, pool size) classes",
+        "configs_with_server_inside_pool_range": st["skip_cases"], "lookups": st["lookups"],
+        "bounds": {"netmasks": "8..30", "positions": "every position for /16../30 (%s), 1..4096 + boundary set for /8../15" % ("3 bases" if tier == "thorough" else "3 bases, 1 base for /16../18"),
+                   "lookup_flag_patterns": "256 per deep configuration on slots {0, last}"},
+    }
+
+
+def cov_c19(st, tier):
+    return {
+        "states": st["cases"], "transitions": st["cases"] + st["dependence_checks"] + st["raw_checks"], "traces_validated_against_impl": st["cases"] + st["raw_checks"],
+        "evaluations": st["cases"], "distinct_nontrivial": st["distinct_outcomes"],
+        "rule": "state = one (password bytes, challenge) input; transition = one real login_calculate() call (or one real raw-login exchange). distinct = distinct digests produced (first 5 bytes), counted with a hash set",
+        "raw_mode_exchanges_checked": st["raw_checks"], "dependence_checks": st["dependence_checks"],
+        "sanitizer_notes_for_C05_C06": st.get("sanitizer_notes_for_C05_C06", 0),
+        "bounds": {"password_lengths": "0..40", "challenges": st["challenges"], "note": "all 2^32 challenges are represented by boundary, single-bit, single-zero and byte-lane values"},
+    }
+
 
 PROPS = {
     "C07": {
@@ -36,5 +74,32 @@ PROPS = {
         "tiers": {"quick": {"budget_s": 120}, "thorough": {"budget_s": 900}},
         "coverage": cov_c07,
         "assumptions": COMMON_ASSUME + ["alphabet order is learnt from the encoder (the protocol document gives character classes only) and checked to be a bijection onto the documented class"],
+    },
+    "C17": {
+        "harness": "C17.c", "flavor": "ubsan", "images": (("s", "server"),), "engine": "E-C enumerators",
+        "tiers": {"quick": {"budget_s": 120}, "thorough": {"budget_s": 900}},
+        "coverage": cov_c17,
+        "level_text": "All strings up to length 7 (validation) / 7-8 (matching, x15 plain and wildcard domains) over {a,A,b,-,.,*,0}, plus length-boundary and long-name families, are run through the real check_topdomain/query_datalen and compared with a reference written from the property text; every name up to length 5-6 is also sent through the real server loop to observe tunnel handling vs forwarding. Complete enumeration within the bounds.",
+        "level_note": "Trusted: the 40-line reference validator/matcher. Where the statement is ambiguous ('*.x' has two labels only if the wildcard counts) the reference does not decide. Names longer than 8 outside the long-name family are not covered.",
+        "technique": "bounded exhaustive enumeration of inputs through the real functions and the real server dispatch vs reference",
+        "assumptions": COMMON_ASSUME,
+    },
+    "C18": {
+        "harness": "C18.c", "flavor": "ubsan", "images": (("s", "server"),), "engine": "E-C enumerators",
+        "tiers": {"quick": {"budget_s": 120}, "thorough": {"budget_s": 600}},
+        "coverage": cov_c18,
+        "level_text": "Every (netmask /16../30, server host position) configuration and boundary positions for /8../15, under up to three base networks, is run through the real init_users(); pool size, distinctness, subnet membership and exclusion of server/network/broadcast are checked, and find_user_by_ip() is checked for all 256 liveness flag patterns on two slots against every pool/server/network/broadcast address.",
+        "level_note": "Trusted: reference arithmetic in the harness. The 8..30 range test in main() is not executed (main needs real sockets); only init_users/find_user_by_ip are.",
+        "technique": "exhaustive enumeration of configurations through the real functions vs reference",
+        "assumptions": COMMON_ASSUME,
+    },
+    "C19": {
+        "harness": "C19.c", "flavor": "asan", "engine": "E-C enumerators",
+        "tiers": {"quick": {"budget_s": 120}, "thorough": {"budget_s": 300}},
+        "coverage": cov_c19,
+        "level_text": "Full product of a password family (lengths 0..40, four fills, every position set to 01/7f/80/ff) and a challenge family (boundary, all single-bit, single-zero, byte-lane values) through the real login_calculate() against an independent RFC 1321 MD5 over the documented formula; dependence on each of the first 32 bytes and each challenge bit; raw-mode +1/-1 observed on the wire from the real server loop and the real client handshake for wrap-around challenges.",
+        "level_note": "Trusted: the reference MD5 (self-tested on an RFC 1321 vector). 2^32 challenges are covered by boundary/bit-lane values, not one by one.",
+        "technique": "exhaustive enumeration of an input product through the real function vs independent reference; protocol exchange replayed against the real loops",
+        "assumptions": COMMON_ASSUME,
     },
 }
